@@ -49,7 +49,10 @@ def suites(rng, tier):
              "distribution": {"cases": m, "note": "same cases with the real accrue_interest applied in isolation: gives the accrued share values the allowance is computed from"}},
             {"suite": "delevsim", "name": "deleverage-purge-solvency",
              "lines": [C12.gen_delev_case(rng) for _ in range({"quick": 300, "thorough": 5000, "search": 2000}[tier])],
-             "distribution": {"note": "forced-deleverage transactions (start; withdrawals / repayments; end) and purge_delev_balance through the real handlers: per successful instruction no bank's gap drops by more than the accrual allowance plus rounding, except the sanctioned token-less write-off of a sunset bank; a purge never lowers it"}}]
+             "distribution": {"note": "forced-deleverage transactions (start; withdrawals / repayments; end) and purge_delev_balance through the real handlers: per successful instruction no bank's gap drops by more than the accrual allowance plus rounding, except the sanctioned token-less write-off of a sunset bank; a purge never lowers it"}},
+            {"suite": "hops", "name": "hops-tokenless-writeoff",
+             "lines": [H.gen_tokenless_case(rng) for _ in range({"quick": 120, "thorough": 3000, "search": 1000}[tier])],
+             "distribution": {"note": "the first sanctioned exception at level C: repay_all on a bank flagged for token-less repayments, signed by the risk admin (no tokens move, the gap may drop) or by anybody else / on an unflagged bank (tokens must move, the bound applies)"}}]
 
 
 def delev_banks(outp):
